@@ -727,6 +727,16 @@ class Grammar:
             if isinstance(delim, GNode):
                 n.attrs["delim_node"] = delim
             return n
+        if base in ("oneOf", "one_of"):
+            # longest-first alternation of plain literals (no word boundary) unless asKeyword / as_keyword is set
+            strs = args[0] if args else None
+            if isinstance(strs, str):
+                strs = strs.split()
+            if not isinstance(strs, (list, tuple)) or not all(isinstance(x, str) for x in strs):
+                raise AnalysisError(f"{mi.rel}:{e.lineno}: oneOf() over a non-constant list")
+            kind = "Keyword" if (kw.get("asKeyword") or kw.get("as_keyword")) else "Literal"
+            alts = [self.mk(kind, text=x, attrs={}, src=src) for x in sorted(strs, key=lambda x: (-len(x), strs.index(x)))]
+            return self.mk("MatchFirst", alts, src=src)
         if base in TERMINALS:
             attrs = dict(kw)
             attrs["args"] = [a if isinstance(a, str) else "<expr>" for a in args]
